@@ -49,7 +49,7 @@ def _t0():
     r3 = top.add_residue("HOH", cy, resSeq=1, segment_id="S2")
     a = [top.add_atom("N", element.nitrogen, r1, serial=10), top.add_atom("CA", element.carbon, r1, serial=12),
          top.add_atom("CA", element.carbon, r2, serial=20), top.add_atom("O", element.oxygen, r3, serial=31),
-         top.add_atom("M", element.virtual_site, r3, serial=32)]
+         top.add_atom("OM", element.virtual_site, r3, serial=32)]
     top.add_bond(a[0], a[1], type=_bond_type("single"), order=1)
     top.add_bond(a[1], a[2], type=_bond_type("amide"), order=None)
     top.add_bond(a[2], a[3], type=_bond_type("double"), order=2)
